@@ -642,6 +642,9 @@ func (g *Graph) condNilTest(n *GNode) (*types.Var, bool, bool) {
 // NonNilAt: node n is only reachable through an edge on which v was tested non-nil, and v is
 // not assigned between that test and n.
 func (g *Graph) NonNilAt(n *GNode, v *types.Var) bool {
+	// n is provably reached with v != nil iff it cannot be reached from the entry, from just after
+	// an assignment of v, or from the nil edge of a test of v, without crossing a non-nil edge of a
+	// test of v afterwards.
 	cut := func(from *GNode, e Edge) bool {
 		cv, trueMeansNonNil, ok := g.condNilTest(from)
 		if !ok || cv != v {
@@ -649,34 +652,21 @@ func (g *Graph) NonNilAt(n *GNode, v *types.Var) bool {
 		}
 		return (e.Cond == 1) == trueMeansNonNil
 	}
-	r := g.Reach([]int{g.Entry}, nil, cut)
-	if r.Seen[n.ID] {
-		return false
-	}
-	// no reassignment of v on the way from a non-nil edge to n
-	var starts []int
-	for _, c := range g.Nodes {
-		cv, tm, ok := g.condNilTest(c)
-		if !ok || cv != v {
-			continue
+	starts := []int{g.Entry}
+	for _, x := range g.Nodes {
+		if x.ID != n.ID && g.assigns(x, v) {
+			starts = append(starts, g.after(x)...)
 		}
-		for _, e := range c.Succs {
-			if (e.Cond == 1) == tm {
-				starts = append(starts, e.To)
+		if cv, tm, ok := g.condNilTest(x); ok && cv == v {
+			for _, e := range x.Succs {
+				if (e.Cond == 1) != tm {
+					starts = append(starts, e.To)
+				}
 			}
 		}
 	}
-	fwd := g.Reach(starts, func(x *GNode) bool { return x.ID == n.ID }, nil)
-	for id := range fwd.Seen {
-		x := g.Nodes[id]
-		if x.ID == n.ID || !g.canReach(x.ID, n.ID) {
-			continue
-		}
-		if g.assigns(x, v) {
-			return false
-		}
-	}
-	return true
+	r := g.Reach(starts, nil, cut)
+	return !r.Seen[n.ID]
 }
 
 func (g *Graph) canReach(from, to int) bool {
